@@ -440,9 +440,22 @@ def verify_config(I, c, fn, specf, cfg):
         res = []
         if ctx.check() == z3.unsat:
             raise PathAbort()
-        # frame: inputs that must not be mutated
+        # frame: arguments that must not be mutated (every mutating construct executed on the path was recorded)
         if c.frame is not None:
-            bad = [m for m in muts if getattr(m, "owner", None) == "input" and not any(m is args1.get(a) for a in c.frame_exempt())]
+            t1 = time.time()
+            reach = {}
+            for a in c.frame:
+                for o in reachable(args1.get(a)):
+                    reach[id(o)] = a
+            hit = sorted(set(reach[id(m)] for m in muts if id(m) in reach))
+            if hit:
+                model, status = model_to_inputs(I, ctx, None)
+                res.append(Obligation("%s#%d:frame" % (tag, k), c.target, cfg, "failed" if status == "sat" else "undecided",
+                                      "modifies argument(s) %s which must stay unchanged | %s" % (hit, notes), model,
+                                      ms=1000 * (time.time() - t1), kind="frame"))
+            else:
+                res.append(Obligation("%s#%d:frame" % (tag, k), c.target, cfg, "discharged",
+                                      "no mutating construct executed on %s" % c.frame, kind="frame"))
         if specf is not None:
             if sp is None:
                 try:
@@ -536,6 +549,33 @@ def verify_config(I, c, fn, specf, cfg):
     finally:
         I.verifying = None
     return obligations
+
+
+def reachable(v, seen=None):
+    """heap objects reachable from a value"""
+    from .builtins_model import SDict
+    if seen is None:
+        seen = {}
+    if isinstance(v, (SObj, AList, dict, SDict)):
+        if id(v) in seen:
+            return []
+        seen[id(v)] = v
+        if isinstance(v, SObj):
+            for x in v.attrs.values():
+                reachable(x, seen)
+        elif isinstance(v, dict):
+            for x in v.values():
+                reachable(x, seen)
+        elif isinstance(v, SDict):
+            for _, x in v.pairs:
+                reachable(x, seen)
+        elif isinstance(v, AList) and isinstance(v.term, Conc):
+            for x in v.term.items:
+                reachable(x, seen)
+    elif isinstance(v, tuple):
+        for x in v:
+            reachable(x, seen)
+    return list(seen.values())
 
 
 def compare_outcomes(I, c, real, sp, args1, args2):
